@@ -457,6 +457,22 @@ fn check_word(out: &mut Out, w: &str) {
             if !matches!(&got, Got::Val(RV::Int(42))) {
                 out.violation("word/not-an-identifier", format!("{w} = {w} + 1; {w}  with {w} = 41"), "Ok(42i)".into(), got.show());
             }
+            // … through the typed context-free entry points too, bare and negated (no entry point reads the word itself)
+            for src in [w.to_string(), format!("-{}", w), format!(" {} ", w)] {
+                let outcomes: Vec<(&str, String)> = vec![
+                    ("eval_number", format!("{:?}", crate::observe::guard(|| evalexpr::eval_number(&src)).map_err(|p| api::panic_text(&p)))),
+                    ("eval_float", format!("{:?}", crate::observe::guard(|| evalexpr::eval_float(&src)).map_err(|p| api::panic_text(&p)))),
+                    ("eval_int", format!("{:?}", crate::observe::guard(|| evalexpr::eval_int(&src)).map_err(|p| api::panic_text(&p)))),
+                    ("eval_boolean", format!("{:?}", crate::observe::guard(|| evalexpr::eval_boolean(&src)).map_err(|p| api::panic_text(&p)))),
+                ];
+                out.evals(4);
+                let want = format!("Ok(Err(VariableIdentifierNotFound({:?})))", w);
+                for (name, got) in outcomes {
+                    if got != want {
+                        out.violation("word/not-an-identifier", format!("{}({:?})", name, src), want.clone(), got);
+                    }
+                }
+            }
             out.sample(|| format!("{:?} is an identifier", w));
         },
         WordClass::Bool(b) => expect_value(out, "word/boolean", w, &RV::Bool(b)),
@@ -565,6 +581,7 @@ pub fn phases(cfg: &Cfg) -> Vec<Box<dyn Phase>> {
         "0e", "00x1", "x0x", "e", "E", "e+", ".", "..", "._", "1..2", "a\u{200b}b", "\u{200b}", "x\u{feff}", "a\u{ad}b", "a\u{2060}b", "“a”", "１２", "1\u{200b}2",
         "ī", "н", "нx", "ȫ", "ш", "a١", "0x0x10", "0x0X1", "0x0x", "00x10", "0xx1", "0x_1", "0x1_", "0b101", "0o17", "1x0", "x0x1", "0x1p3", "0x1.0", "1e1e1", "1ee1", "12:30:45", "0000000?", "1234567:", "00000000:", "2024:01:01", "99999999?", "1:2", "12345678@",
         "١_٠٠٠", "１_０", "²_²", "1_000_000", "1_0", "1__0", "_1_", "1'000", "1٠", "٣.٥", "1e٣",
+        "mod", "xor", "in", "is", "div", "and", "or", "not", "nil", "null", "none", "pi", "tau", "shl", "if", "then", "else", "let", "var", "fn", "return", "0o17", "0o755", "0b11", "0q1", "1f32", "1i64", "1u8", "1L",
     ]
     .iter()
     .map(|s| s.to_string())
